@@ -53,6 +53,18 @@ Definition oracle (ty : rtype) (t : target) (port : N) (o : obs) : bool :=
   | _, _ => false
   end.
 
+(* the request may be written only once the server's method-selection reply (VER=5, METHOD=0,
+   the one method offered) is complete; for any other reply -- another method, another version,
+   an incomplete reply -- nothing at all is written after the greeting *)
+Definition selected (method_reply : bytes) : bool :=
+  match method_reply with
+  | v :: m :: _ => (code v =? 5) && (code m =? 0)
+  | _ => false
+  end.
+Definition oracle_full (ty : rtype) (t : target) (port : N) (method_reply : bytes) (o : obs) : bool :=
+  if selected method_reply then oracle ty t port o
+  else match o with OWrote [] | ORefused => true | _ => false end.
+
 (* the input class of the open finding C06-F1 (CONNECT to an IPv6 literal) *)
 Definition is_connect_v6 (ty : rtype) (t : target) : bool :=
   match ty, t_cls t with RConnect, CV6 _ => true | _, _ => false end.
